@@ -184,6 +184,24 @@ def equivalent(ws, back, seed=0, issues=None, ctx=None, key="C18:content"):
             bm = sorted((m["name"], m["type"]) for m in bs[sn]["modifiers"])
             if om != bm:
                 bad("modifiers", f"modifiers of {cn}/{sn}: {bm} != {om}")
+                continue
+            # modifier data survive the absolute <-> relative conversions (bins with a zero nominal cannot carry a relative uncertainty: skipped)
+            bmods = {(m["name"], m["type"]): m for m in bs[sn]["modifiers"]}
+            nomv = os_[sn]["data"]
+            for m in os_[sn]["modifiers"]:
+                b_ = bmods[(mapname(m["name"]), m["type"])]
+                n += 1
+                if m["type"] == "normsys":
+                    ok = np.allclose([m["data"]["lo"], m["data"]["hi"]], [b_["data"]["lo"], b_["data"]["hi"]], rtol=1e-12)
+                elif m["type"] == "histosys":
+                    ok = all(np.allclose(m["data"][k], b_["data"][k], rtol=1e-12, atol=1e-12) for k in ("lo_data", "hi_data"))
+                elif m["type"] in ("shapesys", "staterror"):
+                    keep = [i for i, x in enumerate(nomv) if x != 0]
+                    ok = len(m["data"]) == len(b_["data"]) and np.allclose([m["data"][i] for i in keep], [b_["data"][i] for i in keep], rtol=1e-9, atol=1e-12)
+                else:
+                    ok = True
+                if not ok:
+                    bad(f"modifier_data:{m['type']}", f"data of {m['type']} {m['name']} on {cn}/{sn}: {b_['data']} after the round trip, {m['data']} before")
     oo, bo = {o["name"]: o["data"] for o in ws["observations"]}, {o["name"]: o["data"] for o in back["observations"]}
     n += 1
     if sorted(oo) != sorted(bo) or any(not np.allclose(oo[k], bo[k], rtol=1e-12, atol=0) for k in oo):
